@@ -96,7 +96,7 @@ def stratify(cases, budget, seed):
     for c in cases:
         h = c.get("hint", {})
         k = (c["log"][-1]["op"], len(c["log"]), min(h.get("warn", 0), 2), bool(h.get("dup")), bool(h.get("moved")),
-             bool(h.get("stale")), bool(h.get("unparsed")), bool(h.get("merged")),
+             bool(h.get("stale")), bool(h.get("unparsed")), bool(h.get("merged")), bool(h.get("basetouch")),
              ",".join(sorted(h.get("acc", []))))
         buckets.setdefault(k, []).append(c)
     for k in buckets:
